@@ -362,22 +362,104 @@ def rule_decoder_state(ck, R, rule='C06.f'):
                    'initialises the instance\'s SLIP decoder context' if ok else 'leaves the instance\'s SLIP decoder context as it was (uninitialised, or in the state of the previous channel)')
 
 
+def _deep_strip(t):
+    """the term without integer conversions, at every level"""
+    if not isinstance(t, tuple):
+        return t
+    t = strip_cast(t)
+    if t and isinstance(t[0], str) and t[0] not in ('c', 'v', 'h', 'str', 'fn', 'flt'):
+        return (t[0],) + tuple(_deep_strip(x) if isinstance(x, tuple) else x for x in t[1:])
+    return t
+
+
+def channel_octet_count(R, eng, d, Q):
+    """Is Q (a term met in a path condition after the decode call d) the number of octets the channel delivered during
+    that call?  It is when: Q is field f of a local object K whose address the caller stored as the driver context of
+    the source object S handed to the decode call; K.f was 0 before the call; K also holds the address of the instance's
+    channel source; and the driver function stored in S is a transparent tap - on each of its paths it reads once from
+    that source with its own buffer and count, returns the result unchanged, and adds the result to context->f on every
+    path on which the result may be positive (no other store to the count).  -> None if so, else the reason; a reason
+    that starts with '?' says the form could not be read (analysis-broken, not a violation)."""
+    Q = strip_cast(Q)
+    if not (isinstance(Q, tuple) and Q[0] == 'fv' and Q[1] in eng.call_clobbered):
+        return 'not a field of an object the decode call may have written'
+    K, fld = eng.call_clobbered[Q[1]], Q[2]
+    pre = d.pointees.get(K)
+    if pre is None or pre[0] != 'struct':
+        return '?%s is not handed to the decode call with known contents' % fmt(K)
+    pf = dict(pre[2])
+    if strip_cast(pf.get(fld, ('?',))) != C(0):
+        return '%s.%s is not 0 before the decode call' % (fmt(K), fld)
+    chan = ('&', ('f', ('&', ('f', P, 'ep')), 'source'))
+    srcf = [f for f, v in pf.items() if strip_cast(v) == chan]
+    if len(srcf) != 1:
+        return '%s does not hold the address of the instance\'s channel source' % fmt(K)
+    S = strip_cast(d.args[0])
+    if not (S[0] == '&' and S[1] in d.pointees and d.pointees[S[1]][0] == 'struct'
+            and any(strip_cast(v) == ('&', K) for _, v in d.pointees[S[1]][2])):
+        return 'the source handed to the decode call does not carry &%s as its driver context' % fmt(K)
+    # the driver function: a function of this unit named in the initialiser / an assignment of S
+    drivers = set()
+    known = sym.KNOWN_FUNCTIONS()
+    for fn_, fd in R.u.functions.items():
+        if fn_ != 'regp_recv' and known and fn_ in known:
+            continue        # regp_recv itself, or a helper split off it
+        for x in cast.walk(fd):
+            if cast.kind(x) == 'VarDecl' and x.get('name') == S[1][1].rsplit(':', 1)[-1]:      # a local of a helper looked through is 'helper@n:name'
+                for y in cast.walk(x):
+                    rd = y.get('referencedDecl') if cast.kind(y) == 'DeclRefExpr' else None
+                    if rd and rd.get('kind') == 'FunctionDecl' and R.u.fn(rd.get('name')) is not None:
+                        drivers.add(rd['name'])
+    if len(drivers) != 1:
+        return '?the driver function of %s is not a single function of this unit (%s)' % (fmt(S[1]), ', '.join(sorted(drivers)) or 'none found')
+    drv = drivers.pop()
+    ps = R.paths(drv, 'C06.f', R.engine(set()))
+    if not ps:
+        return '?driver %s: no paths' % drv
+    params = [x.get('name') for x in R.u.fn(drv).get('inner', []) if cast.kind(x) == 'ParmVarDecl']
+    if len(params) != 3:
+        return 'driver %s does not have the chunk-driver signature' % drv
+    ctx, buf, n = (('v', a) for a in params)
+    cnt = ('f', ctx, fld)
+    for p in ps:
+        rd = [e for e in p.calls() if e.kind == 'call' and e.name.startswith('source_get')]
+        if len(p.calls()) != 1 or len(rd) != 1:
+            return 'driver %s: a path does not consist of exactly one read from the channel source' % drv
+        e = rd[0]
+        if [_deep_strip(a) for a in e.args] != [('f', ctx, srcf[0]), buf, n]:
+            return 'driver %s: reads (%s), not (context->%s, its buffer, its count)' % (drv, ', '.join(fmt(a) for a in e.args), srcf[0])
+        if p.end != 'return' or _deep_strip(p.ret) != e.result:
+            return 'driver %s: does not return the result of the read unchanged' % drv
+        st = [x for x in p.stores() if _deep_strip(x.name) == cnt or (sym.rooted_at(x.name, ctx) and not sym.rooted_at(x.name, ('f', ctx, srcf[0])))]
+        if not st:
+            if not eng.entails(p, L(e.result)):
+                return 'driver %s: a path on which the read may have delivered octets leaves context->%s as it was' % (drv, fld)
+        elif len(st) != 1 or _deep_strip(st[0].name) != cnt or L(_deep_strip(st[0].args[0])) != L(cnt) + L(e.result):
+            return 'driver %s: context->%s := %s is not "plus the octets delivered"' % (drv, fld, fmt(st[0].args[0]))
+        elif not eng.entails(p, -L(e.result)):
+            return 'driver %s: a negative result is added to context->%s' % (drv, fld)
+    return None
+
+
 def rule_tcp_desync(ck, R, rule='C06.f'):
     """The length-prefixed (TCP) twin of decoder-resync.  When reception fails after part of a frame was taken from the
-    channel, what the channel delivers next is the REST of that frame.  A SLIP decoder can skip to the next delimiter; a
-    length-prefixed stream has no delimiter, it is out of step for good.  So: (1) a path of regp_recv that returns a
-    channel error on the TCP branch with part of a frame received (a block was obtained) records that in the instance -
-    it stores a non-zero constant into a field of the endpoint; (2) every path that decodes from a TCP channel has tested
-    that field to be clear; (3) binding a channel (regp_init / regp_use_channel) clears it.  Otherwise the next call takes
-    payload octets of the dropped frame for a length prefix and a frame - an embedded frame image is executed and
-    acknowledged: a frame that failed reception causes a memory access."""
+    channel - be it one octet of its length prefix -, what the channel delivers next is the REST of that frame.  A SLIP
+    decoder can skip to the next delimiter; a length-prefixed stream has no delimiter, it is out of step for good.  So:
+    (1) a path of regp_recv that returns a channel error on the TCP branch records that in the instance - it stores a
+    non-zero constant into a field of the endpoint - unless the path has established that the channel delivered NO octet
+    during the call (channel_octet_count == 0; that a block was or was not obtained says nothing: the prefix never
+    reaches the sink, and the sink may have failed to get a block - D59); (2) every path that decodes from a TCP channel
+    has tested that field to be clear; (3) binding a channel (regp_init / regp_use_channel) clears it.  Otherwise the
+    next call takes octets of the dropped frame for a length prefix and a frame - an embedded frame image is executed
+    and acknowledged: a frame that failed reception causes a memory access."""
     eng = R.engine({'early_ebusy', 'early_erxoverflow'})
     ps = R.paths('regp_recv', rule, eng)
     if ps is None:
         return
     bad = None
     marks = set()
-    nfail = ndec = 0
+    nfail = ndec = nzero = 0
+    why = {}
     for p in ps:
         d = p.calls('lenp_decode_source_to_sink')
         if not d:
@@ -385,15 +467,39 @@ def rule_tcp_desync(ck, R, rule='C06.f'):
         ndec += 1
         r = d[0].result
         failed = any(c[0] == 'cmp' and c[1] == '<' and strip_cast(c[2]) == r and c[3] == C(0) for c in p.cond_terms())
-        block = any(c[0] == 'cmp' and c[1] == '!=' and c[3] == C(0) and fmt(c[2]).endswith('buffer.data') for c in p.cond_terms())
-        if failed and block and p.end == 'return':
-            nfail += 1
+        if failed and p.end == 'return':
             st = [e for e in p.stores() if sym.rooted_at(e.name, P) and sym.is_c(strip_cast(e.args[0])) and strip_cast(e.args[0])[1] != 0]
-            if not st:
-                bad = bad or ('a channel error ends the call on the length-prefixed branch after part of a frame was received (the block is freed), and nothing in the instance '
-                              'remembers it: the next call reads the rest of that frame as a length prefix and a frame - a payload containing a frame image is executed and '
-                              'acknowledged (a length-prefixed stream cannot resynchronise; the instance has to refuse further reception until a channel is bound again)')
-            marks |= {e.name for e in st}
+            if st:
+                nfail += 1
+                marks |= {e.name for e in st}
+                continue
+            # no record: only where no octet of a frame has left the channel
+            zero = False
+            for c in p.cond_terms():
+                Q = None
+                if c[0] == 'cmp' and c[1] in ('<=', '==') and c[3] == C(0):
+                    Q = c[2]
+                elif c[0] == 'cmp' and c[1] == '<' and c[3] == C(1):
+                    Q = c[2]
+                if Q is None or strip_cast(Q) == r or strip_cast(Q)[0] != 'fv':
+                    continue
+                if Q not in why:
+                    why[Q] = channel_octet_count(R, eng, d[0], Q)
+                if why[Q] is None:
+                    zero = True
+            if zero:
+                nzero += 1
+                continue
+            unread = [w for w in why.values() if w and w.startswith('?')]
+            if unread:
+                return ck.broken(rule, 'regp_recv:tcp-desync', R.where('regp_recv'), 'a failing path without a mark tests a count this rule cannot read: ' + unread[0][1:])
+            reasons = '; '.join('%s: %s' % (fmt(q), w) for q, w in why.items() if w)
+            bad = bad or ('a channel error ends the call on the length-prefixed branch under {%s} and nothing in the instance remembers it, although part of a frame may '
+                          'have been taken from the channel (an octet of its length prefix is enough; whether the sink obtained a block says nothing)%s: the next call reads '
+                          'the rest of that frame as a length prefix and a frame - a payload containing a frame image is executed and acknowledged (a length-prefixed '
+                          'stream cannot resynchronise; the instance has to refuse further reception until a channel is bound again)'
+                          % ('; '.join(fmt(c) for c in p.cond_terms() if not sym.contains(c, ('f', ('&', ('f', P, 'ep')), 'type'))),
+                             ' [%s]' % reasons if reasons else ''))
     if ndec == 0:
         return ck.broken(rule, 'regp_recv:tcp-desync', R.where('regp_recv'), 'no length-prefix decode call found')
     if nfail == 0 and bad is None:
@@ -411,7 +517,8 @@ def rule_tcp_desync(ck, R, rule='C06.f'):
                     if strip_cast(sym.mem_read(p.mem, m)) != C(0):
                         bad = bad or '%s does not clear %s: an instance bound to a fresh channel keeps refusing' % (fn, fmt(m))
     ck.verdict(bad is None, rule, 'regp_recv:tcp-desync', R.where('regp_recv'),
-               'after a channel error inside a length-prefixed frame the instance refuses to decode from that channel until a channel is bound again (%d paths)' % nfail
+               'after a channel error inside a length-prefixed frame the instance refuses to decode from that channel until a channel is bound again '
+               '(%d marking paths; %d paths without a mark, each with the channel\'s octet count of this call established as 0)' % (nfail, nzero)
                if bad is None else bad)
 
 
